@@ -223,7 +223,7 @@ def audit(prop: str):
     bad = forbidden_tokens(prop)
     aud = os.path.join(LEAN, ".lake", "audit_%s.lean" % prop)
     with open(aud, "w") as f:
-        f.write("import Dyce.Props.%s\nopen Dyce\n" % prop)
+        f.write("import Dyce.Props.%s\nnamespace Dyce.Rng\nend Dyce.Rng\nnamespace Dyce.Guard\nend Dyce.Guard\nopen Dyce Dyce.Rng Dyce.Guard\n" % prop)
         for n in names:
             f.write("#print axioms %s\n" % n)
     rc, out = sh(["lake", "env", "lean", aud], cwd=LEAN, timeout=3000)
